@@ -46,7 +46,8 @@ class _Aes:
 
 
 def _xor(a: bytes, b: bytes) -> bytes:
-    return bytes(x ^ y for x, y in zip(a, b))
+    n = min(len(a), len(b))
+    return (int.from_bytes(a[:n], "big") ^ int.from_bytes(b[:n], "big")).to_bytes(n, "big")
 
 
 def ecb_dec(key: bytes, data: bytes) -> bytes:
